@@ -12,3 +12,5 @@ import LibfiveTheorems.C16
 #print axioms Libfive.C16.context_forwarding
 #print axioms Libfive.C16.push_preserves_oracle_value
 #print axioms Libfive.C16.transformed_push_value
+#print axioms Libfive.C16.transformed_interval_sound_flagged
+#print axioms Libfive.C16.transformed_interval_old_unsound
